@@ -29,7 +29,10 @@ def structures(tier):
     return [{'kind': 'decode'}, {'kind': 'noninterference'}, {'kind': 'length', 'n': 63}, {'kind': 'length', 'n': 65},
             # the same record after the process has read a dump (thread map with a free tid/pid, one free record): the
             # decoding of a record does not depend on what was parsed before
-            {'kind': 'decode', 'after': 'v2-dump'}, {'kind': 'noninterference', 'after': 'v2-dump'}]
+            {'kind': 'decode', 'after': 'v2-dump'}, {'kind': 'noninterference', 'after': 'v2-dump'},
+            # auxiliary net, not a decision: a long concrete history (more distinct records than any power-of-two sized
+            # cache up to 2^16 / 2^17 holds), then the first records again, then one free record
+            {'kind': 'history', 'n': 70000 if tier == 'quick' else 140000}]
 
 
 def _decode(ctx, b, tag=''):
@@ -54,6 +57,35 @@ def run(ctx, st):
             ctx.check('C01/wrong-size-rejected', False)
         except Exception:
             ctx.check('C01/wrong-size-rejected', True)
+        ctx.reach()
+        return
+    if st['kind'] == 'history':
+        import struct
+        from pykdebugparser import kevent
+        n = st['n']
+
+        def rec(i):
+            return struct.pack('<QQQQQQIIQ', 1000 + i, i, i * 0x9e3779b97f4a7c15 & (2 ** 64 - 1), ~i & (2 ** 64 - 1), i ^ 0x5555, 0x300 + (i & 0xff),
+                               0x40c0000 | ((i * 4) & 0xfffc) | (i & 3), i & 7, 0)
+        bad = None
+        for phase, idx in (('first pass', range(n)), ('again', range(0, 3000)), ('again, far', range(n - 3000, n))):
+            for i in idx:
+                b = rec(i)
+                ev = kevent.from_kd_buf(b)
+                spec = K.Rec(b)
+                if not (ev.timestamp == spec.timestamp and ev.data == spec.data and tuple(ev.values) == tuple(spec.args)
+                        and ev.tid == spec.tid and ev.debugid == spec.debugid):
+                    bad = (phase, i)
+                    break
+            if bad:
+                break
+        ctx.check('C01/history/each-record-decodes-as-on-its-own', bad is None, 'record %r decodes differently (%s)' % (bad and bad[1], bad and bad[0]))
+        b = ctx.bytes('rec', 64)
+        ev = _decode(ctx, b)
+        if ev is not None:
+            spec = K.Rec(b)
+            ctx.check('C01/history/free-record-after-the-history', And(ev.timestamp == spec.timestamp, ev.data == spec.data, ev.tid == spec.tid,
+                                                                       ev.debugid == spec.debugid, *[ev.values[i] == spec.args[i] for i in range(4)]))
         ctx.reach()
         return
     if st.get('after') == 'v2-dump':
